@@ -110,7 +110,7 @@ def teardown(ctx):
 
 
 def plan(tier):
-    m = 1 if tier == 'quick' else 24
+    m = 1 if tier == 'quick' else 144
     return [('fmt', len(CELLS) * max(m, 2)), ('fmt_mc', 320 * m), ('cobs', 320 * m), ('plain', 96 * m), ('compare', 385 * m), ('zero', 480 * m),
             ('plottable', 96 * m), ('fit_priors', 48 * m)]
 
